@@ -698,6 +698,11 @@ func reloadCase(c *h.Case) {
 	}
 	run.Distinct("reload|" + sig)
 	run.Count("reload_histories", 1)
+	if os.Getenv("C19_TRACE") != "" {
+		for _, e := range c.Log.Snapshot() {
+			fmt.Fprintf(os.Stderr, "%8.1f ms %s %v\n", float64(e.T)/1e6, e.Kind, e.F)
+		}
+	}
 	if c.Idx%13 == 0 {
 		var ops [][]string
 		for _, s := range steps {
@@ -747,11 +752,10 @@ func settleAndJudge(c *h.Case, env *reloadEnv, g *histGen, svc *client.Service, 
 			return false
 		}
 		// messages of a burst may still be in flight (registered, then closed): the ledger is taken when
-		// the operating system agrees with the server's table
-		lp := h.OwnTCPListenPorts()
+		// the operating system agrees with the server's table (a connect is refused on every other port)
 		strayPort = 0
 		for _, p := range env.remote {
-			if lp[p] && !wantRemote[p] {
+			if !wantRemote[p] && portAccepts(p) {
 				strayPort = p
 				return false
 			}
@@ -974,22 +978,17 @@ func settleAndJudge(c *h.Case, env *reloadEnv, g *histGen, svc *client.Service, 
 		}
 	}
 	okV := h.Eventually(convergeGrace, func() bool {
-		lp := h.OwnTCPListenPorts()
 		for _, p := range env.vports {
-			if _, w := wantV[p]; w != lp[p] {
+			if _, w := wantV[p]; !w && portAccepts(p) {
 				return false
 			}
 		}
 		return true
 	})
 	if !okV {
-		lp := h.OwnTCPListenPorts()
 		for _, p := range env.vports {
-			if n, w := wantV[p]; w && !lp[p] {
-				c.Violation("configured-visitor-not-listening", "step %d: visitor %s is configured on port %d, nothing listens there", stepIdx, n, p)
-				return false
-			} else if !w && lp[p] {
-				c.Violation("removed-visitor-still-listening", "step %d: port %d belongs to no configured visitor but is still listening", stepIdx, p)
+			if _, w := wantV[p]; !w && portAccepts(p) {
+				c.Violation("removed-visitor-still-listening", "step %d: %v after the reload port %d belongs to no configured visitor but still accepts connections", stepIdx, convergeGrace, p)
 				return false
 			}
 		}
@@ -1030,7 +1029,11 @@ func settleAndJudge(c *h.Case, env *reloadEnv, g *histGen, svc *client.Service, 
 			if cn != nil {
 				cn.Close()
 			}
-			c.Violation("configured-visitor-carries-no-traffic", "step %d: visitor %s on %s answered %q / %v", stepIdx, n, addr, id, err)
+			key := "configured-visitor-carries-no-traffic"
+			if err != nil && strings.Contains(err.Error(), "refused") {
+				key = "configured-visitor-not-listening"
+			}
+			c.Violation(key, "step %d: visitor %s on %s answered %q / %v", stepIdx, n, addr, id, err)
 			return false
 		}
 		t.conn, t.connGen = cn, t.gens
@@ -1166,10 +1169,24 @@ remotePort = %d
 			name, blk[0], blk[1], blk[1], 3*tStartErr+10*time.Second, setKeys(liveNames(pfx)), st.Phase, st.Err)
 		return
 	}
+	if err := cli.WaitRunning(10*time.Second, name); err != nil {
+		c.Violation("status-not-running-for-registered-proxy", "%s is registered at the server but the status API reports %q", name, cli.ProxyPhase(name))
+		return
+	}
 	if id, err := h.AskIdent(fmt.Sprintf("127.0.0.1:%d", blk[1]), 10*time.Second); err != nil || id != "B0|" {
 		c.Violation("registered-proxy-carries-no-traffic-to-configured-backend", "%s on port %d answered %q / %v", name, blk[1], id, err)
 		return
 	}
 	run.Count("stale_reply_real_server_cases", 1)
 	run.Distinct("reload|stale-reply-real-server")
+}
+
+// portAccepts asks the operating system whether something listens on the loopback port.
+func portAccepts(p int) bool {
+	cn, err := net.DialTimeout("tcp", "127.0.0.1:"+strconv.Itoa(p), 2*time.Second)
+	if err != nil {
+		return false
+	}
+	cn.Close()
+	return true
 }
